@@ -305,17 +305,19 @@ def handleBase (op : String) (f : List String) : Verdict :=
     match unescape lflag, parseInTrees dumps, exits.toInt?, unescape text with
     | some lflag, some input, some exit, some text =>
       let lf : Option String := if lflag == "omit" then none else some (String.ofList (lflag.toList.drop 2))
-      let model := Cli.cutCmdThr lf input   -- = Cli.cutCmd on the decimal spellings; also reads inf / infinity / nan
+      let model := Cli.cutCmdThrX lf input   -- = Cli.cutCmd on the decimal spellings; also reads inf / infinity / nan, hexadecimal floats, digit separators
       let trees := (inTrees input).filterMap Cli.InTree.tree?
       let uniq := trees.all fun t => t.tipNames.eraseDups.length == t.tipNames.length
       let allGood := input.toBool && trees.length == (inTrees input).length
-      let thr : Option Cli.Thr := match lf with | none => some (.fin (1/2)) | some s => Cli.parseThr s
-      let unmodelled := match lf with | some s => Cli.unmodelledSpelling s | none => false
+      let thr : Option Cli.Thr := match lf with | none => some (.fin (1/2)) | some s => Cli.parseThrX s
+      let unmodelled := match lf with | some s => Cli.unmodelledSpellingX s | none => false
       let tags := ["cli", "out-" ++ outmode, "exit-" ++ exits] ++ tagIf lf.isNone "l-omitted" ++ tagIf thr.isNone "l-invalid" ++
         tagIf (!input.toBool) "no-input-file" ++ tagIf (!allGood && input.toBool) "bad-tree" ++ tagIf (trees.length ≥ 2) "several-trees" ++
         tagIf (exit == 0 && (lines text).length ≥ 2) "nontrivial" ++ tagIf (!uniq) "dupnames" ++
         tagIf (model.written outmode == text) "fid-text-exact" ++
-        tagIf (thr == some .pinf || thr == some .ninf) "l-inf" ++ tagIf (thr == some .nan) "l-nan" ++ tagIf unmodelled "l-unmodelled"
+        tagIf (thr == some .pinf || thr == some .ninf) "l-inf" ++ tagIf (thr == some .nan) "l-nan" ++ tagIf unmodelled "l-unmodelled" ++
+        tagIf (match lf with | some s => Cli.hasHexPrefix s.toList | none => false) "l-hex" ++
+        tagIf (match lf with | some s => s.toList.contains '_' | none => false) "l-underscore"
       -- oracle: the printed groups of each tree id are the components (Spec), sizes are right
       let oracleOK : Bool :=
         match thr with
@@ -332,7 +334,7 @@ def handleBase (op : String) (f : List String) : Verdict :=
             -- NaN: every comparison is false, nothing documents what the groups should be: sizes and success only
             thr == .nan || cutSpecOK (thr.forTree ti.1) ti.1 ((recs.filter fun r => r.headD "" == toString ti.2).map fun r => (r.getD 2 "").splitOn ","))
       if exit == 2 then ⟨.oracle, tags, "the command panicked"⟩
-      else if unmodelled then ⟨.pass, "tie-skipped-unmodelled-spelling" :: tags, ""⟩   -- hexadecimal float / digit separators
+      else if unmodelled then ⟨.pass, "tie-skipped-unmodelled-spelling" :: tags, ""⟩   -- a hexadecimal float with more than 13 digits or a huge exponent
       else if !oracleOK then ⟨.oracle, tags, "printed groups are not the documented components / the command failed on valid input"⟩
       else if model.exit != exit.toNat || exit < 0 then ⟨.tie, tags, s!"model exit {model.exit} ({model.msg})"⟩
       else if sortStrings (lines (model.written outmode)) != sortStrings (lines text) then ⟨.tie, tags, "model text " ++ escape (model.written outmode)⟩
